@@ -13,6 +13,7 @@ VERIF = os.path.dirname(HERE)
 def main():
     props = [json.loads(l)["id"] for l in open(os.path.join(VERIF, "properties.jsonl")) if l.strip()]
     checks = []
+    enabled = set(open(os.path.join(HERE, "enabled.txt")).read().split())
     claimed = set()
     engines = {}
     for pid in props:
@@ -21,7 +22,7 @@ def main():
             continue
         mod = importlib.import_module("props." + pid)
         meta = getattr(mod, "META", None)
-        if not meta or meta.get("disabled"):
+        if not meta or meta.get("disabled") or pid not in enabled:
             continue
         claimed.add(pid)
         c = {
